@@ -1,3 +1,4 @@
 From Coq Require Import ZArith Extraction ExtrOcamlBasic.
-From CyVerif Require Import Lib.CInt Model.M_Override.
-Extraction "../ocaml/gen/m_override.ml" ex_keep run_cy run_py w0 p0 prefilter vslot wf_hier no_ext_def leaf_op.
+From CyVerif Require Import Lib.CInt Model.M_Override Model.M_VTable.
+Extraction "../ocaml/gen/m_override.ml" ex_keep run_cy run_py w0 p0 prefilter vslot wf_hier no_ext_def leaf_op
+  build split_at vt_call vt_ref wf_chain wf_vt vrun_cy vrun_py chain_of ext_base.
